@@ -112,6 +112,13 @@ def areas(tr):
     return 0.5 * np.abs(u[:, 0] * v[:, 1] - u[:, 1] * v[:, 0])
 
 
+def rt_of(tr):
+    """Relative tolerance for areas / barycentric margins of a set: 1e-9, or what the float64 vertex arrays themselves can resolve when
+    the set lies far from the origin compared with its triangle size (coordinate rounding u*|v|max relative to the size)."""
+    size = float(np.sqrt(max(float(areas(tr).mean()), 1e-300)))
+    return max(1e-9, 1e3 * 2.2e-16 * float(np.max(np.abs(tr))) / size)
+
+
 def ref_up(tr):
     """Midpoint subdivision of every parent (a,b,c): three corner children and the medial triangle."""
     a, b, c = tr[:, 0], tr[:, 1], tr[:, 2]
@@ -220,7 +227,7 @@ def quarter_children(parent_tr, child_tr):
     pa, ca = np.sort(areas(parent_tr)), np.sort(areas(child_tr))
     if ca.shape[0] != 4 * pa.shape[0]:
         return False
-    return bool(np.allclose(ca, np.repeat(pa / 4.0, 4), rtol=1e-9, atol=0.0))
+    return bool(np.allclose(ca, np.repeat(pa / 4.0, 4), rtol=rt_of(parent_tr), atol=0.0))
 
 
 # ------------------------------------------------------------------------------ contracts
@@ -262,7 +269,7 @@ def post_point_mask(ctx, a, result, old):
     p = (float(sh.x), float(sh.y))
     if not np.isfinite(p).all():
         return None
-    must = bary(tr, p).min(axis=1) >= MARGIN
+    must = bary(tr, p).min(axis=1) >= max(MARGIN, rt_of(tr))
     res = np.asarray(result).astype(bool)
     ok = res.shape == must.shape and bool(res[must].all())
     return (ok, {"point": p, "shape": type(sh).__name__, "missed": lambda: tr[must & ~res][:4]})
@@ -344,8 +351,9 @@ def check_containment(ctx, pre, T, tr, rng, npoints):
         for name, shape in shapes:
             ref_pt = (float(shape.x), float(shape.y))       # what the shape itself calls its reference point
             marg = bary(tr, ref_pt).min(axis=1)
-            must = np.flatnonzero(marg >= MARGIN)
-            if marg[k] < MARGIN:
+            margin_eff = max(MARGIN, rt_of(tr))
+            must = np.flatnonzero(marg >= margin_eff)
+            if marg[k] < margin_eff:
                 ctx.skipped["reference_point_inside_the_1e-9_band"] += 1
             if must.size == 0:
                 continue
@@ -373,7 +381,7 @@ def check_level(ctx, pre, T, rng, npoints, deep):
     ok, v = ctx.guarded(pre + ":area.matches_geometry", lambda: (len(T), float(T.area)))
     if ok:
         gl, ga = v
-        ctx.check(gl == n and ctx.close(ga, A0, 1e-9, scale=max(A0, 1e-300)), pre + ":area.matches_geometry",
+        ctx.check(gl == n and ctx.close(ga, A0, rt_of(tr), scale=max(A0, 1e-300)), pre + ":area.matches_geometry",
                   triangles=tr, own_area=A0, got_area=ga, got_len=gl)
     # --- neighbourhood (results are materialised inside the guard: their triangles are computed lazily)
     if not edge_reflection_defined(tr):
@@ -420,7 +428,7 @@ def check_level(ctx, pre, T, rng, npoints, deep):
     ctx.check(same_multiset(ut, exp), pre + ":upsample.children", parents=tr, expected=exp, got=ut)
     ctx.check(ul == 4 * n and ut.shape[0] == 4 * n, pre + ":upsample.count", parents=n, got_len=ul, got_triangles=ut.shape[0])
     A1 = float(areas(ut).sum())
-    ctx.check(ctx.close(A1, A0, 1e-9, scale=max(A0, 1e-300)) and ctx.close(ua, A0, 1e-9, scale=max(A0, 1e-300)),
+    ctx.check(ctx.close(A1, A0, rt_of(tr), scale=max(A0, 1e-300)) and ctx.close(ua, A0, rt_of(tr), scale=max(A0, 1e-300)),
               pre + ":upsample.area", own_before=A0, own_after=A1, area_after=ua)
     ctx.check(quarter_children(tr, ut), pre + ":upsample.quarter_area", parent_areas=lambda: areas(tr), child_areas=lambda: areas(ut))
     ctx.check(vertices_kept(tr, ut) and vertices_kept(tr, uv), pre + ":upsample.vertices_kept",
@@ -460,7 +468,7 @@ def run_set(ctx, pre, C, twin, rng, depth, npoints):
 # ------------------------------------------------------------------------------ generators
 def coordinate_set(rng):
     n = int(rng.integers(1, 10))
-    fam = ("cluster", "scatter", "even_only", "odd_only", "row", "far")[int(rng.integers(6))]
+    fam = ("cluster", "scatter", "even_only", "odd_only", "row", "far", "beyond_2^24")[int(rng.integers(7))]
     if fam == "cluster":
         c0 = rng.integers(-5, 6, size=2)
         pts = c0 + rng.integers(-2, 3, size=(n, 2))
@@ -473,6 +481,10 @@ def coordinate_set(rng):
     elif fam == "row":
         x0, y0 = rng.integers(-6, 7, size=2)
         pts = np.stack([x0 + np.arange(n), np.full(n, y0)], axis=1)
+    elif fam == "beyond_2^24":
+        # lattice coordinates that single precision cannot hold exactly (a set far from the origin relative to its scale)
+        base = np.array([int(rng.choice([-1, 1])) * (2 ** 24 + int(rng.integers(1, 2 ** 23))), int(rng.choice([-1, 1])) * (2 ** 24 + int(rng.integers(1, 2 ** 22)))])
+        pts = base + rng.integers(-3, 4, size=(n, 2))
     else:
         pts = rng.integers(-60, 61, size=(n, 2))
     pts = np.unique(pts.astype(np.int64), axis=0)
